@@ -292,6 +292,8 @@ class Profile:
         self.group_nesting = 0.0  # groups naming other groups (or themselves) as members: rejected by the validity gate
         self.vp_wide = 0.0        # boolish / falsey / non-empty / possible-value / narrow ranged-integer value parsers
         self.vp_wide_ext = 0.0    # ... as the external-subcommand value parser
+        self.flag_values = 0.0    # SetTrue / SetFalse options declared with num_args(0..=1): `--flag[=true|false]` (action.rs
+                                  # gives the two flag actions max_num_args = ValueRange::OPTIONAL); 0 = never (no rng draw)
         self.conventional = False
         self.__dict__.update(kw)
 
@@ -372,6 +374,8 @@ def gen_cmd(rng, prof, depth=0, path="p", used_env=None, inherited=None):
         kind = rng.random()
         if kind < 0.22:
             a["action"] = "settrue" if chance(rng, 0.7) else "setfalse"
+            if prof.flag_values and chance(rng, prof.flag_values):
+                a["num"] = (0, 1)
         elif kind < 0.34:
             a["action"] = "count"
         else:
@@ -616,6 +620,8 @@ def is_opt(a):
 
 def takes_value(a):
     act = a.get("action")
+    if act in ("settrue", "setfalse") and a.get("num") is not None:
+        return a["num"][1] is None or a["num"][1] > 0      # `--flag=false`: Profile.flag_values
     if act in ("settrue", "setfalse", "count", "help", "version"):
         return False
     if a.get("num") is not None:
@@ -631,6 +637,8 @@ def value_for(rng, a, safe):
         return v
     if a.get("vp") and not isinstance(a["vp"], str):
         return pick(rng, [b"1", b"0", b"300", b"-5", b"7"] if safe else [b"1", b"301", b"-6", b"x", b"+3", b""])
+    if a.get("action") in ("settrue", "setfalse") and a.get("num") is not None and not a.get("vp"):
+        return pick(rng, [b"true", b"false", b"false"] if safe else [b"true", b"false", b"no", b"TRUE", b""])
     v = pick(rng, SAFE_VALUES if safe else VALUES)
     if a.get("delim") and chance(rng, 0.3):
         v = v + b"," + pick(rng, SAFE_VALUES)
